@@ -462,6 +462,11 @@ func (s *JavaFullListener) EnterCreator(ctx *parser.CreatorContext) {
 }
 
 func (s *JavaFullListener) ExitCreator(ctx *parser.CreatorContext) {
+	// only the creator of an anonymous class opened the "CreatorClass" state; a plain `new X()` inside its body must not end it
+	if ctx.ClassCreatorRest() == nil || ctx.ClassCreatorRest().(*parser.ClassCreatorRestContext).ClassBody() == nil {
+		return
+	}
+
 	if currentCreatorNode.NodeName != "" {
 		method := methodMap[getMethodMapName(currentMethod)]
 		method.InnerStructures = append(method.InnerStructures, currentCreatorNode)
